@@ -58,6 +58,32 @@ pub fn dispatch(op: &str, a: &[Val]) -> Option<Val> {
         "ndt.sub" => (|| Some(vopt(dec_ndt(a.get(0)?)?.checked_sub_signed(dec_td(a.get(1)?)?), enc_ndt)))(),
         "ndt.opadd" => (|| Some(enc_ndt(dec_ndt(a.get(0)?)? + dec_td(a.get(1)?)?)))(),
         "ndt.opsub" => (|| Some(enc_ndt(dec_ndt(a.get(0)?)? - dec_td(a.get(1)?)?)))(),
+        // impl Timelike for NaiveDateTime called directly (accessors, provided methods, setters)
+        "ndt.tacc" => (|| {
+            let n = dec_ndt(a.get(0)?)?;
+            let (pm, h12) = n.hour12();
+            Some(vtup(vec![vint(n.hour()), vint(n.minute()), vint(n.second()), vint(n.nanosecond()),
+                           vint(n.num_seconds_from_midnight()), vbool(pm), vint(h12)]))
+        })(),
+        "ndt.twith" => (|| {
+            let n = dec_ndt(a.get(1)?)?; let v = a.get(2)?.u32()?;
+            let r = match a.get(0)?.int()? {
+                0 => n.with_hour(v), 1 => n.with_minute(v), 2 => n.with_second(v), 3 => n.with_nanosecond(v),
+                _ => return None,
+            };
+            Some(vopt(r, enc_ndt))
+        })(),
+        // the deprecated panicking constructors
+        #[allow(deprecated)]
+        "t.phms" => (|| Some(enc_time(NaiveTime::from_hms(a.get(0)?.u32()?, a.get(1)?.u32()?, a.get(2)?.u32()?))))(),
+        #[allow(deprecated)]
+        "t.phms_milli" => (|| Some(enc_time(NaiveTime::from_hms_milli(a.get(0)?.u32()?, a.get(1)?.u32()?, a.get(2)?.u32()?, a.get(3)?.u32()?))))(),
+        #[allow(deprecated)]
+        "t.phms_micro" => (|| Some(enc_time(NaiveTime::from_hms_micro(a.get(0)?.u32()?, a.get(1)?.u32()?, a.get(2)?.u32()?, a.get(3)?.u32()?))))(),
+        #[allow(deprecated)]
+        "t.phms_nano" => (|| Some(enc_time(NaiveTime::from_hms_nano(a.get(0)?.u32()?, a.get(1)?.u32()?, a.get(2)?.u32()?, a.get(3)?.u32()?))))(),
+        #[allow(deprecated)]
+        "t.pnsfm" => (|| Some(enc_time(NaiveTime::from_num_seconds_from_midnight(a.get(0)?.u32()?, a.get(1)?.u32()?))))(),
         _ => return None,
     };
     Some(r.unwrap_or_else(bad))
